@@ -4,8 +4,26 @@ enum { VK_NULL = 0, VK_BOOL, VK_NUMBER, VK_STRING, VK_ARRAY, VK_OBJECT };
 enum { R_NONE = 0, R_TRUE, R_FALSE, R_NULL };
 static int vx_lk, vx_rk, vx_cmp, vx_result;
 /*@GROUP ops@*/
+/* arithmetic operands: storage kind flags and the three readings of the stored number */
+enum { RK_NONE = 0, RK_I, RK_U, RK_D };
+static bool vx_l_is_i, vx_l_is_u, vx_l_is_d, vx_r_is_i, vx_r_is_u; static int64_t vx_li, vx_ri, vx_res_i; static uint64_t vx_lu, vx_ru, vx_res_u; static double vx_ld, vx_rd, vx_res_d; static int vx_res_kind;
+static double vx_fmod(double a, double b) { (void)a; (void)b; double r; return r; }   /* libm */
+static void vx_ret_i(int64_t v) { vx_res_kind = RK_I; vx_res_i = v; vx_result = R_TRUE; }
+static void vx_ret_u(uint64_t v) { vx_res_kind = RK_U; vx_res_u = v; vx_result = R_TRUE; }
+static void vx_ret_d(double v) { vx_res_kind = RK_D; vx_res_d = v; vx_result = R_TRUE; }
+#define VX_RET(e) _Generic((e), int64_t: vx_ret_i, uint64_t: vx_ret_u, double: vx_ret_d, default: vx_ret_i)(e)
+/*@GROUP arith@*/
 #ifdef VX_CBMC
 static void setup(void) { vx_lk = nondet_int(); vx_rk = nondet_int(); vx_cmp = nondet_int(); __CPROVER_assume(vx_cmp >= -1 && vx_cmp <= 1); vx_result = R_NONE; }
+double nondet_double(void);
+static void setup_a(void) { setup(); vx_l_is_i = nondet_bool(); vx_l_is_u = nondet_bool(); vx_l_is_d = nondet_bool(); vx_r_is_i = nondet_bool(); vx_r_is_u = nondet_bool(); __CPROVER_assume(!(vx_l_is_i && vx_l_is_u) && !(vx_r_is_i && vx_r_is_u));
+    vx_li = nondet_i64(); vx_ri = nondet_i64(); vx_lu = nondet_u64(); vx_ru = nondet_u64(); vx_ld = nondet_double(); vx_rd = nondet_double(); vx_res_kind = RK_NONE; }
+void h_op_plus(void) { setup_a(); op_plus(); }
+void h_op_minus(void) { setup_a(); op_minus(); }
+void h_op_mult(void) { setup_a(); op_mult(); }
+void h_op_div(void) { setup_a(); op_div(); }
+void h_op_mod(void) { setup_a(); op_mod(); }
+void h_op_neg(void) { setup_a(); op_neg(); }
 void h_op_eq(void) { setup(); op_eq(); }
 void h_op_ne(void) { setup(); op_ne(); }
 void h_op_lt(void) { setup(); op_lt(); }
